@@ -464,4 +464,18 @@ pub fn run_c08(out: &mut Out, tier: &str, seed: u64) {
     out.notes.insert("partitions_checked_on_implementation".into(), json!(count));
     crate::objapi::generichash_vec_keys(out, &mut rng);
     crate::objapi::long_inputs(out, &mut rng, false);
+    // output buffers of every admissible and inadmissible length at finalisation (empty, shorter, longer than asked at init, longer than 64)
+    for outlen in [16usize, 32, 64] {
+        for fin in [0usize, 1, outlen - 1, outlen, outlen + 1, 64, 65, 100] {
+            for (keyed, mlen) in [(false, 0usize), (true, 1), (false, 129), (true, 300)] {
+                let msg = rng.bytes(mlen);
+                let cut = mlen / 2;
+                let pieces: [&[u8]; 2] = [&msg[..cut], &msg[cut..]];
+                let r = d_generichash_chunks(outlen, if keyed { Some(&key32[..]) } else { None }, &pieces, fin);
+                out.search_evaluations += 1;
+                if r.is_panic() { out.hit("generichash.final.panics", format!("init {} final buffer {}", outlen, fin), json!({"op":"generichash.chunks","outlen":outlen,"final_len":fin,"msg":hx(&msg)})); }
+                out.case("generichash.chunks", &[i(outlen), if keyed { b(&key32) } else { Tok::N }, chunk_tok(&pieces), i(fin)], &r.map(|v| vec![Tok::B(v)]), true);
+            }
+        }
+    }
 }
